@@ -177,6 +177,37 @@ pub fn grid_scene(max_tris: usize) -> BoxedStrategy<Scene> {
         .boxed()
 }
 
+/// Many (24..64) triangles in one call whose depths differ by a few ulps, with depth sorting on: chains of nearly
+/// equal sort keys, walls cut into strips, coincident layers.
+pub fn coplanar_scene() -> BoxedStrategy<Scene> {
+    (8u32..=32, 8u32..=32, 0.5f32..2.0, log_uniform(-1.0, 2.0), 24usize..=64, 0u8..3, target_kind(true), cfg_any(), 1u8..3)
+        .prop_flat_map(|(bw, bh, focal, near, n, door, target, cfg, sort)| {
+            let far = near * 100.0;
+            let z0 = near * 2.0;
+            let strips = proptest::collection::vec((-1.2f32..1.2, -1.2f32..1.2, 0.05f32..0.6, 0.05f32..0.6, -4i32..=4, -4i32..=4, -4i32..=4), n..=n);
+            (Just((bw, bh, focal, near, far, z0, door, target, cfg, sort)), strips, any::<u64>())
+        })
+        .prop_map(|((bw, bh, focal, near, far, z0, door, target, mut cfg, sort), strips, _)| {
+            cfg.depth_sort = sort;
+            let aspect = bw as f32 / bh as f32;
+            let (hx, hy) = (z0 / focal, z0 / (focal * aspect));
+            let tris: Vec<[[f32; 3]; 3]> = strips
+                .iter()
+                .map(|&(cx, cy, w, h, k0, k1, k2)| [[(cx - w) * hx, (cy - h) * hy, nudge(z0, k0)], [(cx + w) * hx, (cy - h) * hy, nudge(z0, k1)], [cx * hx, (cy + h) * hy, nudge(z0, k2)]])
+                .collect();
+            let proj = Proj::Perspective { focal: X(focal), near: X(near), far: X(far) };
+            let attrs = tris.iter().enumerate().map(|(i, _)| xs([i as f32; 3])).collect();
+            if door == 2 {
+                Scene { bw, bh, vp: [0, 0, bw, bh], tris: tris.iter().map(|t| t.map(|v| xs([v[0], v[1], v[2], 1.0]))).collect(), attrs, door: Door::Camera, target, proj: Some(proj), bg_depth: X(0.0), cfg, shader_mode: 0, shared_verts: false, flip: [false, false] }
+            } else {
+                let m = perspective(focal, aspect, near..far);
+                let clip = tris.iter().map(|t| t.map(|v| xs(m.apply(&pt3(v[0], v[1], v[2])).0))).collect();
+                Scene { bw, bh, vp: [0, 0, bw, bh], tris: clip, attrs, door: if door == 0 { Door::Render } else { Door::Batch }, target, proj: Some(proj), bg_depth: X(0.0), cfg, shader_mode: 0, shared_verts: false, flip: [false, false] }
+            }
+        })
+        .boxed()
+}
+
 pub fn check(sc: &Scene, obs: &mut Obs) -> Check {
     let mut s = Session::new(sc);
     let all: Vec<usize> = (0..sc.tris.len()).collect();
@@ -252,7 +283,10 @@ pub fn check(sc: &Scene, obs: &mut Obs) -> Check {
     if on_centre {
         obs.class("has-vertex-exactly-on-a-pixel-centre");
     }
-    if written > 0 && (crossing || on_centre) {
+    if sc.tris.len() > 20 {
+        obs.class("more-than-20-triangles-in-one-call");
+    }
+    if written > 0 && (crossing || on_centre || sc.tris.len() > 20) {
         obs.nontrivial(hash_of(&(&sc.tris, sc.vp, sc.bw, sc.bh, sc.cfg.face_cull, sc.cfg.depth_test)));
         if obs.wants_sample() {
             let cc = sc.clone();
@@ -269,6 +303,8 @@ pub fn run(cx: &mut Ctx) {
     cx.prop_check("soups", n, move || scene_strategy(mt), |c, obs| check(c, obs));
     let n = cx.n(300_000, 5_000_000);
     cx.prop_check("pixel-grid", n, move || grid_scene(4), |c, obs| check(c, obs));
+    let n = cx.n(20_000, 400_000);
+    cx.prop_check("many-near-coplanar", n, coplanar_scene, |c, obs| check(c, obs));
 }
 
 pub fn replay(_sub: &str, case: &Value) -> Check {
